@@ -398,6 +398,12 @@ JunkSet(v) ==
               ELSE {})
         \* valid headers followed by garbage
         \cup { Junk(f \o "/garbage" \o ToString(n), f, <<>>, 0, n) : f \in forms, n \in {1, 7, 400, 900} }
+        \* well-formed TCP segments of OTHER connections of the target (one port in common with the probed one): not ours, skipped -
+        \* in particular a plain ACK of another connection is not "the target acknowledging on the probed connection without SACK blocks"
+        \cup (IF v \in {"tcp", "tcp_paris", "sack"}
+              THEN { Junk(f \o "/other_connection/" \o m[1], f, <<>>, 0, 0) @@ [from |-> "TARGET", mods_d |-> m[2]]
+                        : f \in {"ack_nosack", "synack", "rst"}, m \in {<<"sport+1", [sport |-> 1]>>, <<"dport+1", [dport |-> 1]>>, <<"dport-1000", [dport |-> -1000]>>} }
+              ELSE {})
 
 C09Clean(v, s, b) == Common(v, s, b, 1, 4) @@ [id |-> "C09/" \o v \o "/" \o b.name \o "/clean", label |-> v \o "/clean", path |-> Background(v, 1, 4, 4, {3})]
 \* batches of junk (all of it must be ignored, so one run absorbs many); the check re-runs a violating batch one packet at a time
@@ -405,7 +411,9 @@ C09Noisy(v, s, b, js, k, at) ==
     Common(v, s, b, 1, 4) @@
     [id |-> "C09/" \o v \o "/" \o b.name \o "/noisy/" \o ToString(k) \o "/" \o ToString(at), twin |-> "C09/" \o v \o "/" \o b.name \o "/clean",
      label |-> v \o "/junk-batch", path |-> Background(v, 1, 4, 4, {3}),
-     inject |-> [i \in 1..Len(js) |-> [at_us |-> at + 37 * i, for_ttl |-> 3, form |-> js[i].form, from |-> Foreign(v, 100 + (i % 100)),
+     inject |-> [i \in 1..Len(js) |-> [at_us |-> at + 37 * i, for_ttl |-> 3, form |-> js[i].form,
+                                       from |-> IF "from" \in DOMAIN js[i] THEN js[i].from ELSE Foreign(v, 100 + (i % 100)),
+                                       mods_d |-> IF "mods_d" \in DOMAIN js[i] THEN js[i].mods_d ELSE NoMods,
                                        patch |-> js[i].patch, trunc |-> js[i].trunc, append |-> js[i].append, tag |-> js[i].label]]]
 Chunks(sq, n) == [k \in 1..((Len(sq) + n - 1) \div n) |-> SubSeq(sq, (k - 1) * n + 1, IF k * n > Len(sq) THEN Len(sq) ELSE k * n)]
 C09All(u) ==
@@ -425,6 +433,8 @@ FaultPoints(v) ==
     \cup { [op |-> "setdeadline", k |-> k, class |-> "fatal"] : k \in {1, 2, 3, 6} }
     \cup { [op |-> "read", k |-> k, class |-> c] : k \in {1, 2, 3, 4, 7}, c \in {"fatal", "zero", "deadline"} }
     \cup { [op |-> "write", k |-> k, class |-> "fatal"] : k \in {1, 2, 3, 4} }
+    \* a send the kernel refuses with an errno (no buffer space, filtered locally): a failed send like any other
+    \cup { [op |-> "write", k |-> k, class |-> c] : k \in {1, 2}, c \in {"enobufs", "eperm"} }
     \cup { [op |-> "close_sink", k |-> 1, class |-> "fatal"], [op |-> "close_source", k |-> 1, class |-> "fatal"] }
 C10Scen(v, f, answered) ==
     Common(v, TRUE, BaseMid, 1, 4) @@
